@@ -1,21 +1,45 @@
 (* C01 — spec-valid operations are accepted by the default rule plan. *)
 From GT Require Import Visitor Validate.
 From GTS Require Import Annot WfSchema SpecRules SpecValid.
-From GTP Require Import C07_position_proofs C01_proofs.
+From GTP Require Import C07_position_proofs C01_proofs C01_C02_full_proofs.
 
-(* The full statement (kept visible).  As written it is FALSE, see C01_needs_const_defaults. *)
+(* The full statement as first written (kept visible).  As written it is FALSE, see
+   C01_needs_const_defaults. *)
 Definition C01_statement : Prop := forall s d,
   wf_schema s = true -> doc_types_proper d = true -> spec_valid s d = true ->
   validate s d default_plan = Ok [].
 
-(* ADJUSTED: additional hypothesis [defaults_const d] (C07_position_proofs.v): no variable occurs
-   inside the default value of a variable definition (the grammar's DefaultValue : = Value[Const];
-   the AST of the model can express it).  The model's VariablesInAllowedPosition checks such an
-   occurrence as a variable usage, the specification does not. *)
+(* ADJUSTED: one additional hypothesis, [defaults_const d] (C07_position_proofs.v): no variable
+   occurs inside the default value of a variable definition (the grammar's
+   DefaultValue : = Value[Const]; the AST of the model can express it).  The model's
+   VariablesInAllowedPosition checks such an occurrence as a variable usage, the specification does
+   not; C01_needs_const_defaults is the counterexample. *)
 
-(* What is proved: the same with the soundness of the field-merging rule as a hypothesis (C05 is
-   partial: the merge rule's verdict is proved against its specification only for documents
-   without named fragment spreads) *)
+(* What is proved: C01_statement with that hypothesis and nothing else — for ALL 23 rules of the
+   default plan, the field-merging rule included, on documents with named fragment spreads of any
+   nesting.  Ingredients for the merge rule: a spec-valid document is in the rule's scope
+   (UniqueFragmentNames, NoFragmentsCycle and UniqueArgumentNames are not violated); every conflict
+   the rule reports is a violation of its specification (C05: merge_sound_acyclic; soundness needs
+   neither distinct positions nor known inline type conditions); the rule never exhausts its fuel
+   (C03: merge_no_fuel_exhaustion). *)
+Theorem C01_accepts_valid : forall s d,
+  wf_schema s = true -> doc_types_proper d = true -> defaults_const d = true ->
+  spec_valid s d = true ->
+  validate s d default_plan = Ok [].
+Proof. exact spec_valid_accepted_full. Qed.
+Print Assumptions C01_accepts_valid.
+
+(* rule by rule: every rule is sound on its own, it reports nothing on a spec-valid document
+   (constant default values are needed for VariablesInAllowedPosition only) *)
+Theorem C01_every_rule_sound : forall s d r,
+  wf_schema s = true -> doc_types_proper d = true -> spec_valid s d = true ->
+  (r = R_VariablesInAllowedPosition -> defaults_const d = true) ->
+  run_alone r s d = [].
+Proof. exact spec_valid_rule_silent_full. Qed.
+Print Assumptions C01_every_rule_sound.
+
+(* ---- the earlier, weaker forms (they stay true; superseded by the two theorems above) ---- *)
+(* the verdict of the field-merging rule as a hypothesis *)
 Theorem C01_partial : forall s d,
   wf_schema s = true -> doc_types_proper d = true -> defaults_const d = true ->
   spec_valid s d = true ->
@@ -24,8 +48,7 @@ Theorem C01_partial : forall s d,
 Proof. exact spec_valid_accepted. Qed.
 Print Assumptions C01_partial.
 
-(* every other rule is sound on its own: it reports nothing on a spec-valid document
-   (constant default values are needed for VariablesInAllowedPosition only) *)
+(* every rule other than field merging *)
 Theorem C01_rules_sound : forall s d r,
   wf_schema s = true -> doc_types_proper d = true -> spec_valid s d = true ->
   r <> R_OverlappingFieldsCanBeMerged ->
@@ -34,7 +57,7 @@ Theorem C01_rules_sound : forall s d r,
 Proof. exact spec_valid_rule_silent. Qed.
 Print Assumptions C01_rules_sound.
 
-(* without [defaults_const] both statements are false:
+(* without [defaults_const] the statement is false:
    query Q($a: Int = $b, $b: String) { f(x: $a, y: $b) } on type Query { f(x: Int, y: String): Int } *)
 Theorem C01_needs_const_defaults :
   wf_schema c01_cex_schema = true /\ doc_types_proper c01_cex_doc = true /\
@@ -45,3 +68,18 @@ Theorem C01_needs_const_defaults :
   defaults_const c01_cex_doc = false.
 Proof. exact c01_needs_const_defaults. Qed.
 Print Assumptions C01_needs_const_defaults.
+
+Theorem C01_statement_refuted : ~ C01_statement.
+Proof.
+  intro H. destruct c01_needs_const_defaults as [H1 [H2 [H3 [_ [_ [H4 _]]]]]].
+  exact (H4 (H _ _ H1 H2 H3)).
+Qed.
+Print Assumptions C01_statement_refuted.
+
+(* non-vacuity: { t { ...F } } fragment F on T { a b } over pool_minimal satisfies all hypotheses
+   of C01_accepts_valid *)
+Theorem C01_non_vacuous :
+  wf_schema nv_schema = true /\ doc_types_proper nv_valid_doc = true /\
+  defaults_const nv_valid_doc = true /\ spec_valid nv_schema nv_valid_doc = true.
+Proof. exact nv_valid_hyps. Qed.
+Print Assumptions C01_non_vacuous.
